@@ -3,7 +3,8 @@
   Property theorems only.  The parallel paths of lib/query all have one of three shapes:
   (1) `GoroutineTaskManager.Run(fn)`: worker k evaluates fn(i) for the indices i of its own range and
       stores the result in slot i;  (2) per-worker result lists concatenated in worker order (filter,
-      join);  (3) per-worker key→rows maps merged (GROUP BY, C04).  For each shape the result is
+      join);  (3) per-worker key→rows maps merged (GROUP BY, C04);  (4) REPLACE: slot-wise updates plus a shared set of
+      "matched" flags and a counter, then the unmatched VALUES records appended in VALUES order.  For each shape the result is
       proved equal to a sequential specification that mentions neither the number of workers nor a
       schedule, for EVERY cutting of the record range into contiguous chunks.
   The number of workers itself comes from a shared counter of borrowed goroutine slots, so it depends on
@@ -68,6 +69,42 @@ theorem record_ranges_tile (len n : Nat) (hn : 0 < n) :
 theorem run_over_ranges_is_map {β} (f : Nat → β) (len n : Nat) (hn : 0 < n) :
     (List.range n).flatMap (fun k => (Csvq.ForkJoin.rrIndices len n k).map f) = (List.range len).map f := by
   rw [← record_ranges_tile len n hn, List.map_flatMap]
+
+/-! ## REPLACE -/
+
+/-- shape (4), REPLACE (view.go `replace`): every worker looks, for each existing record of its range, for the
+    FIRST record of the VALUES list with equivalent keys (`upd x = some (j, y)`: match j, updated record y),
+    stores the update in the record's own slot, sets the shared flag `replaced[j]` and counts; afterwards the
+    VALUES records whose flag is not set are appended in VALUES order.  `m` = number of VALUES records. -/
+def replaceImpl {α} (upd : α → Option (Nat × α)) (m : Nat) (ins : List α) (chunks : List (List α)) : List α × Nat :=
+  let rows := (chunks.map (List.map fun x => match upd x with | some (_, y) => y | none => x)).flatten
+  let flag := fun (j : Nat) => chunks.any (List.any · fun x => (upd x).map (·.1) == some j)
+  let count := (chunks.map (List.countP fun x => (upd x).isSome)).sum
+  let appended := ((List.range m).zip ins).filterMap fun (j, r) => if flag j then none else some r
+  (rows ++ appended, appended.length + count)
+
+theorem any_chunks {α} (p : α → Bool) (chunks : List (List α)) :
+    chunks.any (List.any · p) = chunks.flatten.any p := by
+  induction chunks with
+  | nil => rfl
+  | cons c cs ih => simp only [List.any_cons, List.flatten_cons, List.any_append, ih]
+
+theorem count_chunks {α} (p : α → Bool) (chunks : List (List α)) :
+    (chunks.map (List.countP p)).sum = chunks.flatten.countP p := by
+  induction chunks with
+  | nil => rfl
+  | cons c cs ih => simp only [List.map_cons, List.sum_cons, List.flatten_cons, List.countP_append, ih]
+
+/-- the table after REPLACE and the reported count do not depend on how the existing records were cut into
+    worker ranges: they are those of a single worker going over all records in order — the updated records in
+    their own positions, then the unmatched VALUES records in VALUES order -/
+theorem replace_indep_of_cut {α} (upd : α → Option (Nat × α)) (m : Nat) (ins : List α) (chunks : List (List α)) :
+    replaceImpl upd m ins chunks = replaceImpl upd m ins [chunks.flatten] := by
+  simp only [replaceImpl, run_slots_indep, any_chunks, count_chunks, List.map_cons, List.map_nil,
+    List.flatten_cons, List.flatten_nil, List.append_nil, List.any_cons, List.any_nil, Bool.or_false,
+    List.sum_cons, List.sum_nil, Nat.add_zero]
+
+example : replaceImpl (fun (x : Nat) => if x = 2 then some (1, 20) else none) 2 [100, 200] [[1, 2], [3]] = ([1, 20, 3, 100], 2) := by decide
 
 /-! ## The worker number: regenerated bookkeeping (`Gen.assignRoutineNumber`, `release`, `taskDone`, `setCPU`) -/
 
